@@ -78,6 +78,18 @@ CHECKS['C17'] = dict(
          'P-layer in the trace specification.',
     design_ref='4 (C17)', technique='TLA+/TLC model checking (relational spec) + exhaustive spec-to-code replay + trace validation',
     note=_NOTE + ' The model-level use through save_spikes_subset_waveforms is exercised under C10/C03.')
+CHECKS['C01'] = dict(
+    text='EphysReader.tla: TLC proves that the step-by-step transcription of __getitem__/_get_subitems '
+         '(Request, Split, ReadPart, Stack, Cols) returns exactly NumPy\'s rows and columns and produces '
+         'well-formed sub-items, for every composition of n <= 6 (8 thorough) rows into files x every '
+         'integer, every non-empty unit-step slice with bounds in [-n, n] or None, every strictly '
+         'increasing list x 5 column selectors; every terminal state (~58k quick) is replayed on real '
+         'flat multi-file readers (header offsets 0/3/7, uint8/int16/float32 and more in thorough) and, '
+         'for single-file layouts, on .npy, in-memory and .cbin readers, decoding positions from the '
+         'returned values, plus shape/n_samples/n_channels/dtype/duration/part_bounds; random larger '
+         'layouts are trace-validated with wrappers on _get_subitems and _get_part.',
+    design_ref='4 (C01)', technique='TLA+/TLC model checking + exhaustive spec-to-code replay + trace validation',
+    note=_NOTE + ' mtscomp trusted for .cbin; list indices are not issued to .cbin readers (excluded by the statement).')
 
 NOT_APPLICABLE = {}
 for e in ENGINES:
